@@ -343,6 +343,10 @@ def pinv(A, **kw):
         return scipy.linalg.pinv(_np.asarray(A, dtype=float), **kw)
     A = _obj(A)
     m, n = A.shape
+    # the contract is the exact Moore-Penrose inverse: truncation parameters are outside it and are recorded for the harness
+    cut = {k: v for k, v in kw.items() if k in ('atol', 'rtol', 'rcond', 'cond') and v is not None and not (isinstance(v, (int, float)) and v == 0)}
+    if cut:
+        ENG.records.setdefault('pinv_cutoff', []).append({k: repr(v) for k, v in cut.items()})
     if ENG.uf_mode:
         X = uf_array('pinv', (A,), (n, m))
         ENG.records.setdefault('pinv', []).append((A, X))
